@@ -259,3 +259,13 @@ V("c16-kv-guard-lt-33", "C16", ND, "        if len(node) <= 33:", "        if le
 V("c16-branch-prefix-2", "C16", "trie/constants.py", "BRANCH_TYPE_PREFIX = bytes([1])", "BRANCH_TYPE_PREFIX = bytes([2])", rule="SIB7")
 V("c16-reverse-table-not-inverse", "C16", NB, "REVERSE_NIBBLES_LOOKUP = {value: key for key, value in NIBBLES_LOOKUPS.items()}", "REVERSE_NIBBLES_LOOKUP = {value: key for key, value in NIBBLES_LOOKUPS.items() if key}", rule="PROV9")
 V("c16-leaf-key-no-terminator", "C16", ND, "    return encode_nibbles(add_nibbles_terminator(nibbles))", "    return encode_nibbles(nibbles)", rule="SIB8")
+
+# --- helper semantics / conservation / short root ----------------------------------------------
+V("help-ccp-offsets-differ", "C01", ND, "    right_remainder = right_key[common_prefix_length:]", "    right_remainder = right_key[common_prefix_length + 1 :]", rule="HELP")
+V("help-key-starts-with-no-length", "C08", ND, "    if len(full_key) < len(partial_key):\n        return False\n    else:\n        return all(left == right for left, right in zip(full_key, partial_key))", "    return all(left == right for left, right in zip(full_key, partial_key))", expect="inconclusive")
+V("c01-branch-residual-not-cut", "C01", HX, "            new_node = self._set(sub_node, trie_key[1:], value)", "            new_node = self._set(sub_node, trie_key, value)", rule="ABS4h")
+V("c01-delete-residual-off", "C01", HX, "        sub_node_key = trie_key[len(current_key) :]", "        sub_node_key = trie_key[len(current_key) - 1 :]", rule="ABS4h")
+V("c01-new-leaf-slot-mismatch", "C01", HX, "                subnode_position = trie_key_remainder[0]\n                subnode_key = compute_leaf_key(trie_key_remainder[1:])", "                subnode_position = trie_key_remainder[0]\n                subnode_key = compute_leaf_key(trie_key_remainder)", rule="ABS4h")
+V("c01-leaf-removed-on-prefix", "C01", HX, "            if trie_key == current_key:\n                return BLANK_NODE", "            if key_starts_with(current_key, trie_key):\n                return BLANK_NODE", rule="ABS4h")
+V("c06-short-root-always-pruned", "C06", HX, "                    if node_body is None and old_root_hash in self.db:", "                    if old_root_hash in self.db:", rule="PENDG2")
+V("c06-double-schedule", "C06", HX, "        if node_type == NODE_TYPE_LEAF:\n            if trie_key == current_key:\n                return BLANK_NODE", "        if node_type == NODE_TYPE_LEAF:\n            if trie_key == current_key:\n                self._prune_node(node)\n                return BLANK_NODE", rule="TS1")
